@@ -171,6 +171,7 @@ def build(prog):
     b.pep = pep
     b.prog = prog
     b.held = {}          # name -> object the user holds
+    b.part_blocks = []   # per point the user decomposed: its blocks, as returned by the partition's public accessor
     b.user_decl = []     # what the user declared through the public API, recorded AT DECLARATION TIME:
                          # ("sc", constraint) | ("lmi", PSDMatrix object, [entry expressions as written by the user])
 
@@ -363,9 +364,12 @@ def build(prog):
         b1 = part.get_block(b.held["x0"], 1)
         b.held.update(blk0=b0, blk1=b1)
         b.part = part
-        cpu = (b0 ** 2 <= 3)
-        part.add_constraint(cpu)                          # the user's own constraint on the partition
-        b.held["c_part_user"] = cpu
+        # the blocks as the user gets them from the public accessor, kept at declaration time
+        b.part_blocks = [[part.get_block(p, k) for k in range(2)] for p in (xx, b.held["x0"])]
+        if prog["part"] == 1:
+            cpu = (b0 ** 2 <= 3)
+            part.add_constraint(cpu)                      # the user's own constraint on the partition
+            b.held["c_part_user"] = cpu
     if prog.get("lmimetric") and "t0" in b.held:
         m1 = b.held["t0"] + 0          # the metric is the off-diagonal variable of the first LMI (t^2 <= |x - x0|^2 + 1)
     pep.set_performance_metric(m1)
@@ -480,7 +484,7 @@ def probe_cvxpy(wrapper, NP, NE):
     return dict(native=native, msizes=sizes, obj=obj)
 
 
-def observe(pep, ret, held, exact=False, with_native=True, extra_evals=True, user_decl=()):
+def observe(pep, ret, held, exact=False, with_native=True, extra_evals=True, user_decl=(), part_blocks=()):
     """Everything a finished solve exposes, as ints/strings."""
     from PEPit.point import Point
     from PEPit.expression import Expression
@@ -529,6 +533,7 @@ def observe(pep, ret, held, exact=False, with_native=True, extra_evals=True, use
             rec["e"] = ent
         ud.append(rec)
     out["user_decl"] = ud
+    out["part_blocks"] = [[proj.jpt(blk, NP, exact) for blk in blks] for blks in part_blocks]
     out["tau"] = pep.objective.counter + 1 if pep.objective is not None and pep.objective.get_is_leaf() else 0
     out["ret"] = "none" if ret is None else "num"
     out["retv"] = 0 if ret is None else fx(ret)
